@@ -430,6 +430,9 @@ class Renderer(object):
     def __init__(self, S, prefixes=None):
         self.S = S
         self.prefixes = prefixes or ["t%d" % i for i in range(len(S.namespaces))]
+        # local_tns: every schema block binds the SAME prefix `tns` to its own target namespace
+        # (a common hand-written style); references inside the block to its own namespace use it
+        self.local_tns = False
 
     def tref(self, tr):
         if tr[0] == "b":
@@ -478,9 +481,17 @@ class Renderer(object):
         uri, qual = self.S.namespaces[ns]
         imports = "".join('      <xsd:import namespace="%s"/>\n' % u
                           for i, (u, _) in enumerate(self.S.namespaces) if i != ns)
-        types = "\n".join(self.ctype(t) for t in self.S.types if t.ns == ns)
-        return ('    <xsd:schema targetNamespace="%s" elementFormDefault="%s">\n%s%s\n%s\n    </xsd:schema>'
-                % (uri, "qualified" if qual else "unqualified", imports, types, extra))
+        saved, local = self.prefixes, ""
+        if self.local_tns:
+            self.prefixes = list(saved)
+            self.prefixes[ns] = "tns"
+            local = ' xmlns:tns="%s"' % uri
+        try:
+            types = "\n".join(self.ctype(t) for t in self.S.types if t.ns == ns)
+        finally:
+            self.prefixes = saved
+        return ('    <xsd:schema targetNamespace="%s" elementFormDefault="%s"%s>\n%s%s\n%s\n    </xsd:schema>'
+                % (uri, "qualified" if qual else "unqualified", local, imports, types, extra))
 
     def nsdecls(self):
         return " ".join('xmlns:%s="%s"' % (p, self.S.namespaces[i][0]) for i, p in enumerate(self.prefixes))
